@@ -45,11 +45,14 @@ def run(ctx, tier):
                  ("P5", "IPv4-shapedness is decided on the lower-cased host by every caller of is_ipv4 (else the href "
                         "produced by a shortcut does not parse again)")):
         ctx.rule(r, t)
+    ctx.rule("P6", "(second copy of the PATH set) path_signature_table flags exactly the bytes of the path percent-encode set: "
+                   "no byte outside 0x21..0x7E is copied verbatim by the prepared-path shortcuts")
     cfgs = C.configs_for(tier, thorough=["release", "devchecks", "amalgamated", "nopattern"])
     fxs = C.load_configs(ctx, cfgs)
     for name in cfgs:
         ctx.set_config(name)
         check(ctx, fxs[name])
+        C.check_path_signature(ctx, fxs[name], "P6")
 
 
 def check(ctx, fx):
